@@ -185,6 +185,11 @@ def random_insertion(rng, dim, k, allow_diff=True, with_id=None):
         neg = rng.sample(ids, rng.choice([1, 1, 2]))
     if not pos and not neg:
         pos = [rng.choice(valid)]
+    # the addends / subtrahends are SETS of ids: a repeated id changes nothing
+    if pos and rng.random() < 0.15:
+        pos = pos + [rng.choice(pos)]
+    if neg and rng.random() < 0.1:
+        neg = [neg[0]] + neg
     anc = rng.choice(["top", "bottom", "Top", "BOTTOM", None, ids[-1]] + valid * 2
                      + [str(v) for v in valid] + [i for i in dim["ids"] if i not in valid])
     style = rng.choice(["args", "kwargs"])
@@ -227,7 +232,7 @@ def insertion_configs(rows_dim, cols_dim, n, seed, allow_diff=True, max_ins=2):
         if len(valid) < 3:
             return None
         a, b, c = valid[0], valid[1], valid[-1]
-        ins = [insertion("R1", "top", [a, b], id=21),
+        ins = [insertion("R1", "top", [a, b, a], id=21),
                insertion("R2", b, [a, b], [c], id=22),
                insertion("R3", "bottom", [c], [a, b], id=23),
                insertion("R4", a, [a], [c], id=24),
